@@ -179,6 +179,7 @@ where
     // after a dropped future, half of the time the next operation starts at once: no queries and
     // no think time in between, so it meets the detached work of the cancelled one
     let mut chase = false;
+    let mut quiet_tail = false;
     for op in ops.iter() {
         if world.kill_flag.get() {
             return Some(SessionOutcome::Killed);
@@ -262,6 +263,12 @@ where
             }
             continue;
         }
+        if let OpKind::QuietTail = &op.kind {
+            quiet_tail = true;
+            ctx.quiet_close.set(true);
+            world.probe("close_follows_operations_at_once");
+            continue;
+        }
         if let OpKind::CheckDumped = &op.kind {
             crate::oracle::check_dumped::<K>(ctx, st.as_ref().unwrap()).await;
             continue;
@@ -303,6 +310,9 @@ where
         if matches!(op.kind, OpKind::Cancelled { .. }) && crate::rng::mix_all(&[plan.sched.seed, 11, op.uid as u64]) % 2 == 0 {
             world.probe("next_operation_chases_cancelled_one");
             chase = true;
+            continue;
+        }
+        if quiet_tail {
             continue;
         }
         if plan.check_each_step && !matches!(op.kind, OpKind::Read { .. } | OpKind::Contains { .. } | OpKind::ReadAll { .. } | OpKind::ReadAllDel { .. } | OpKind::ReadWith { .. } | OpKind::CheckFilters { .. }) {
@@ -669,6 +679,7 @@ where
     let tolerant_profile = base_phase(&plan, si).map(|p| matches!(p, "fault" | "cancel" | "crash" | "bitflip")).unwrap_or(false);
     let mut had_active = false;
     let mut active_before: Option<usize> = None;
+    let mut fsync_pre: Option<(usize, Vec<(u64, u64)>)> = None;
     let mut precondition_known = false;
     match &op.kind {
         OpKind::Write { key, meta, .. } if stepwise => {
@@ -718,6 +729,17 @@ where
             had_active = tagged(&world, tag, storage.has_active_blob()).await;
             if had_active {
                 active_before = storage.records_count_detailed().await.last().map(|x| x.0);
+            }
+        }
+        OpKind::Fsync if !stepwise && fault_free && plan.sessions[si].clients.len() > 1 && plan.sessions.iter().all(|s| matches!(s.end, SessionEnd::Close)) => {
+            // concurrent clients: no settling (a background sync may be in flight - that is the point).
+            // Records of operations acknowledged before this call starts must be covered by a sync when
+            // it returns Ok, provided the same blob is observed active before and after the call
+            if let Some(a) = observed_active(storage).await {
+                let acked: std::collections::HashSet<(u32, u32)> = ctx.history.borrow().iter().filter(|h| h.session == si && matches!(h.result, OpResult::Ok | OpResult::OkCount(_))).map(|h| (h.client, h.uid)).collect();
+                let w = world.inner.borrow();
+                let must: Vec<(u64, u64)> = w.phys.get(&a).map(|v| v.iter().filter(|r| r.complete && !r.deleted && r.tag.map(|t| acked.contains(&(t.client, t.uid))).unwrap_or(false)).map(|r| (r.offset, r.total_len)).collect()).unwrap_or_default();
+                fsync_pre = Some((a, must));
             }
         }
         OpKind::Fsync if stepwise => {
@@ -1029,6 +1051,23 @@ where
             // that race ("forcerace") wait until the worker has finished
             if matches!(op.kind, OpKind::ForceUpdate(_)) && stepwise && !has_flag(&plan, "forcerace") {
                 crate::oracle::settle(ctx).await;
+            }
+        }
+        (OpKind::Fsync, OpResult::Ok) if fsync_pre.is_some() => {
+            let (a, must) = fsync_pre.take().unwrap();
+            if observed_active(storage).await == Some(a) && !world.is_dead() {
+                world.probe("fsync_checked_with_concurrent_clients");
+                let d = {
+                    let w = world.inner.borrow();
+                    let name = format!("{}.{}.blob", PREFIX, a);
+                    match w.shadows.get(&name) {
+                        Some(sh) if !sh.quarantined && !sh.removed => must.iter().find(|(o, l)| o + l > sh.synced_len).map(|(o, l)| format!("{} synced {} of {}; record acknowledged before the call at offset {} len {}", name, sh.synced_len, sh.content.len(), o, l)),
+                        _ => None,
+                    }
+                };
+                if let Some(d) = d {
+                    ctx.violate(&["C12"], "unsynced-after-fsync", "explicit fsyncdata returned Ok but a record acknowledged before the call lies above the synced length of the active blob", d);
+                }
             }
         }
         (OpKind::Fsync, OpResult::Ok) => {
